@@ -117,6 +117,34 @@ type Sched struct {
 	noTimerAlt bool
 	vals       map[string]any
 	inj        *injection
+	holds      []hold
+}
+
+type hold struct {
+	name    string
+	release func() bool
+}
+
+// matchAll: every '|'-separated part of pattern occurs in name (a part starting with '$' must be a suffix).
+func matchAll(name, pattern string) bool {
+	for _, part := range strings.Split(pattern, "|") {
+		if strings.HasPrefix(part, "$") {
+			if !strings.HasSuffix(name, part[1:]) {
+				return false
+			}
+		} else if !strings.Contains(name, part) {
+			return false
+		}
+	}
+	return true
+}
+
+// Hold keeps every thread whose name contains nameSubstr disabled until release() reports true: an
+// adversarial delay of that thread (threads may be delayed arbitrarily long by a real scheduler).
+func Hold(nameSubstr string, release func() bool) {
+	if s := cur; s != nil {
+		s.holds = append(s.holds, hold{nameSubstr, release})
+	}
 }
 
 // injection: run f on a fresh thread exactly when the target thread reaches its k-th scheduling point,
@@ -296,6 +324,14 @@ func GoNamed(name string, f func()) {
 	}
 	if name == "" {
 		name = callerName(2)
+		// threads started from the same go statement are numbered in creation order
+		n := 0
+		for _, t := range s.threads {
+			if strings.HasPrefix(t.name, name+"#") {
+				n++
+			}
+		}
+		name = fmt.Sprintf("%s#%d", name, n+1)
 	}
 	s.newThread(name, f)
 }
@@ -361,6 +397,11 @@ func (s *Sched) park(op *pendingOp) {
 func (t *T) enabled(s *Sched) bool {
 	if t.done {
 		return false
+	}
+	for _, h := range s.holds {
+		if matchAll(t.name, h.name) && !h.release() {
+			return false
+		}
 	}
 	if p := t.paused; p != nil {
 		if p.done || (p.op != nil && !p.enabled(s)) {
